@@ -152,6 +152,11 @@ func VX_C12_options() {
 		}
 		g := ReadCSV(strings.NewReader("a,a\n"+c1+","+c2+"\n"), csv.Types(str))
 		vx.Check(g.Err != nil, "duplicate column names are an error by default")
+	case "ignore_empty_single_col": // with one column an empty line has the right field count, it is skipped all the same
+		f := ReadCSV(strings.NewReader("a\n"+c1+"\n\n"+c2+"\n\n"), csv.IgnoreEmptyLines(true), csv.Types(str))
+		vx.Check(f.Err == nil && f.Len() == 2, "IgnoreEmptyLines: empty lines skipped in a single-column document")
+		g := ReadCSV(strings.NewReader("a\n1\n\n2\n"), csv.IgnoreEmptyLines(true))
+		vx.Check(g.Err == nil && g.Len() == 2 && g.ColumnTypeMap()["a"] == types.Int, "IgnoreEmptyLines: the int column stays an int column")
 	case "rename_dup_later": // a later column already has the name a generated candidate would get
 		f := ReadCSV(strings.NewReader("a,a,a0\n"+c1+","+c2+",z\n"), csv.RenameDuplicateColumns(true), csv.Types(map[string]string{"a": "string", "a0": "string", "a1": "string", "a00": "string"}))
 		vx.Check(f.Err == nil, "RenameDuplicateColumns: no error")
